@@ -92,6 +92,7 @@ func (fc *filterCall) Execute(v *Value, ctx *ExecutionContext) (*Value, *Error) 
 	}
 
 	filteredValue, err := fc.filterFunc(v, param)
+	verifEv("Filter", verifB(err != nil), 0, 0, 0, fc.name, "expr", ctx)
 	if err != nil {
 		return nil, err.updateFromTokenIfNeeded(ctx.template, fc.token)
 	}
